@@ -330,6 +330,8 @@ def dictionary_mc(quick):
         cfg = ("SPECIFICATION Spec\nCONSTANTS\n Cols = %s\n Caps <- %s\n ThrNum = %d\n ThrDen = %d\n MaxN = %d\n MaxBatches = %d\n MaxRetry = 5\n"
                " MutNoResetGuard = FALSE\n MutKeepWidening = FALSE\nINVARIANTS TypeOK DictBound NoPanic RetryBound\nPROPERTIES Widening PlainIsFinal\nCHECK_DEADLOCK FALSE\n"
                % (cols, caps, tn, td, maxn, nb))
+        if tn < 0:
+            cfg = cfg.replace(" ThrNum = %d\n" % tn, " ThrNum <- ThrInf\n")
         x = C.run_tlc(SPEC, "MC_Dictionary", cfg, workers=4, timeout=1800)
         C.drop_scratch(x["dir"])
         return r, x
